@@ -69,7 +69,7 @@ Theorem C02_lorentz_scalars : forall (x y z t : R),
   numr (T_lorentz_rapidity XY LZ TT x y z t) = Some (1 / 2 * ln ((t + z) / (t - z))) /\
   numr (T_lorentz_Mt2 XY LZ TT x y z t) = Some (t * t - z * z) /\ numr (T_lorentz_Mt XY LZ TT x y z t) = Some (sqrt (t * t - z * z)) /\
   numr (T_lorentz_Et2 XY LZ TT x y z t) = Some (t * t * (x * x + y * y) / (x * x + y * y + z * z)) /\
-  (0 <= t -> 0 < x * x + y * y -> exists th, is_theta (sqrt (x * x + y * y)) z th /\ numr (T_lorentz_Et XY LZ TT x y z t) = Some (t * sin th)) /\
+  (0 < x * x + y * y -> exists th, is_theta (sqrt (x * x + y * y)) z th /\ numr (T_lorentz_Et XY LZ TT x y z t) = Some (t * sin th)) /\
   numr (T_lorentz_beta XY LZ TT x y z t) = Some (sqrt (x * x + y * y + z * z) / t) /\
   (x * x + y * y + z * z < t * t -> numr (T_lorentz_gamma XY LZ TT x y z t) = Some (t / sqrt (t * t - (x * x + y * y + z * z)))) /\
   (x * x + y * y + z * z <= t * t -> numr (T_lorentz_tau XY LZ TT x y z t) = Some (sqrt (t * t - (x * x + y * y + z * z)))) /\
